@@ -63,10 +63,26 @@ func Run(r *mc.Run) {
 	r.Level = "model_checking"
 	setup()
 	r.Rule = "BFS to a fixpoint over every interleaving of: Schedule(next 1|2 headers), ReserveBodies(+FetchBodies) for any idle registered peer and request size, DeliverBodies of any shape (complete, partial prefix, empty, first/second body wrong, late answer to a given-up request, unsolicited), ExpireBodies (peer dropped when <=2 items timed out, idled otherwise, as fetchParts does), peer disconnect, Results; plus Revoke, Reserve+Cancel and lying header batches; states de-duplicated on the full bookkeeping of queue, peerConnections and PeerSet; distinct = distinct such states; liveness = backward reachability of completion over the recorded graph through moves of a fair environment with honest peer P1"
+	// part 1 (the queue under every interleaving) gets the first share of the
+	// budget, part 2 (the real fetch loop, fetch.go) the rest
 	if r.Quick() {
-		r.SetBudget(150e9)
+		r.SetBudget(80e9)
 	} else {
-		r.SetBudget(28 * 60e9)
+		r.SetBudget(19 * 60e9)
+	}
+	defer func() {
+		if os.Getenv("C18_PART") == "1" {
+			return
+		}
+		if r.Quick() {
+			r.SetBudget(175e9)
+		} else {
+			r.SetBudget(29 * 60e9)
+		}
+		runFetch(r)
+	}()
+	if os.Getenv("C18_PART") == "2" {
+		return
 	}
 	maxStates := 400000
 	if !r.Quick() {
@@ -168,6 +184,10 @@ func liveness(r *mc.Run, cfg config, g *graph, name string, exhaustive bool) {
 
 func Replay(r *mc.Run, v *mc.Violation) {
 	setup()
+	if strings.HasPrefix(v.System, "fetch-") {
+		replayFetch(r, v)
+		return
+	}
 	pattern := strings.TrimPrefix(v.System, "queue-")
 	if i := strings.Index(pattern, "-"); i > 0 {
 		pattern = pattern[:i]
